@@ -1,4 +1,5 @@
 import MgpuProofs.C15CuFree
+import MgpuProofs.C15CuSent2
 import MgpuProofs.Props.C15Cu
 /-! # C15 ∘ C14 — "the ROB only throws away what the compute unit has saved", WITHOUT `SentNames`
 
@@ -94,5 +95,34 @@ theorem nothing_left_in_shadow_when_running (c : Cfg) (evs : List CEv) (hl : leg
 example : (crun demoCfg roundEvs).cu.isPaused = false ∧ (crun demoCfg roundEvs).cu.s.issued = [0] ∧
     C14.Flush.ids (crun demoCfg roundEvs).cu.s.inf = [0] ∧ (crun demoCfg roundEvs).sys.rob.discarded = [0] := by
   decide
+
+/-- **`resent_exactly_once` for the scalar path of EVERY legal composed run — the hypothesis `SentNames`
+    of `cu_resends_exactly_once_in_composition` is gone** (what is lost is only C14's clause "every
+    response in the port names a sent request", which the real ROB can break): what the last flush
+    saved is what was re-sent followed by what still waits, without repetition; NO request ID is put on
+    the port twice;
+    every in-flight record has its current request queued in the unit or sent; the generations sent
+    for a listed record never exceed its current one; every record created is answered or in exactly
+    one list. The clauses about the IDs the compute unit SENDS do not depend on the IDs the responses
+    name: a response under any name only removes a record from the in-flight list (`SentOK.respond`). -/
+theorem cu_resends_exactly_once_always (c : Cfg) (evs : List CEv) (hl : legalRunB c {} evs = true)
+    (hcap : 0 < c.cu.capCP) :
+    let ch := (crun c evs).cu.s
+    ch.resent ++ C14.Flush.ids ch.sh = ch.flushed ∧ ch.flushed.Nodup ∧ ch.sent.Nodup ∧
+    (∀ e ∈ ch.inf, e.id ∈ ch.unit ∨ (e.id, e.gen) ∈ ch.sent) ∧
+    (∀ e ∈ ch.inf ++ ch.sh, ∀ g, (e.id, g) ∈ ch.sent → g ≤ e.gen) ∧
+    (ch.applied ++ C14.Flush.ids (ch.inf ++ ch.sh)).Perm ch.issued ∧ ch.issued.Nodup := by
+  intro ch
+  have h := crun_Lite c hcap evs hl
+  have hs := crun_SentS c hcap evs hl
+  refine ⟨h.1.2.resentEq, hs.flushedN, hs.sentNodup, hs.noOrphan, hs.genBound, h.1.2.cons, ?_⟩
+  exact (h.1.2.cons.nodup_iff).1 (crun_IdsOK c evs).2.1.1
+
+/-- on the run where `SentNames` fails: the port never carried an ID twice although the response named
+    the never-sent (0, 1) — the record was re-sent as (0, 2) -/
+example : ¬ SentNames witCfg witEvs ∧ (crun witCfg witEvs).cu.s.sent = [(0, 0), (0, 2)] ∧
+    (crun witCfg witEvs).cu.s.inf.map (fun e => (e.id, e.gen)) = [(0, 2)] ∧
+    (crun witCfg witEvs).cu.s.flushed = [0, 1] ∧ (crun witCfg witEvs).cu.s.resent = [0] :=
+  ⟨unsent_name_witness.2.1, by decide, by decide, by decide, by decide⟩
 
 end C15.Cu
